@@ -483,6 +483,9 @@ func (e *Exec) execInstr(fr *frame, instr ssa.Instruction) {
 	case *ssa.MakeMap:
 		e.objSeq++
 		mo := &MapObj{ID: e.objSeq, Epoch: e.epoch}
+		if kw, vw, ok := termMapType(in.Type()); ok {
+			mo.TM = &termMap{kw: kw, vw: vw}
+		}
 		if e.initing > 0 {
 			e.initMaps = append(e.initMaps, mo)
 		}
